@@ -187,7 +187,13 @@ FamilySet(u) ==
                                         <<None(T), None(T), None(T), OnlyIn(T, f, << CPlain(4), CPlain(7) >>)>>,
                                         <<None(T), OnlyIn(T, f, << CPlain(4), CPlain(7) >>), None(T), None(T)>>,
                                         <<None(T), OnlyIn(T, f, << CPlain(4) >>), None(T), OnlyIn(T, f, << CPlain(5), CPlain(1), CPlain(3) >>)>>,
-                                        <<OnlyIn(T, f, <<13>>), OnlyIn(T, f, << CPlain(4) >>), OnlyIn(T, f, <<7>>), OnlyIn(T, f, << CPlain(5) >>)>> } :
+                                        <<OnlyIn(T, f, <<13>>), OnlyIn(T, f, << CPlain(4) >>), OnlyIn(T, f, <<7>>), OnlyIn(T, f, << CPlain(5) >>)>>,
+                                        \* the ONE declaration of the name the file's transactions use first is removed / added: the file's
+                                        \* list of names (declared and used, in order of first appearance) stays exactly the same
+                                        <<OnlyIn(T, f, <<7>>), None(T), None(T), None(T)>>,
+                                        <<None(T), None(T), OnlyIn(T, f, <<7>>), None(T)>>,
+                                        <<None(T), OnlyIn(T, f, << CPlain(5) >>), None(T), None(T)>>,
+                                        <<None(T), None(T), None(T), OnlyIn(T, f, << CPlain(5) >>)>> } :
                                      f \in 1..N(T) } } : T \in Topos(0) }
       [] OTHER -> {}
 
